@@ -402,13 +402,15 @@ theorem C09_banded_neginf_defect :
 /-! ## Regenerated constants and guards (Gen/C09.lean) -/
 
 /-- `init_score = threshold + 1 ≥ 1` keeps `0` free as the "invalid cell" marker; the table grows by doubling;
+`_extend_table` raises MemoryError only when the new size is STRICTLY greater than `max_table_size` (`growShape`);
 the guards reject exactly what the model rejects (`gap ≥ 0` for the X-drop, `gap > 0` for the band, negative
 thresholds) and the X-drop tests are the non-strict / strict comparisons the model uses. -/
 theorem C09_gen_constants :
     Gen.C09.initOffset = 1 ∧ Gen.C09.growFactor = 2 ∧ 1 ≤ Gen.C09.initSize ∧
     Gen.C09.bandedGapGuard = ">" ∧ Gen.C09.gappedGapGuard = ">=" ∧
     Gen.C09.gappedThresholdGuard = "<" ∧ Gen.C09.ungappedThresholdGuard = "<" ∧
-    Gen.C09.gappedAccept = ">=" ∧ Gen.C09.ungappedDrop = ">" ∧ Gen.C09.ungappedKeep = ">=" := by
+    Gen.C09.gappedAccept = ">=" ∧ Gen.C09.ungappedDrop = ">" ∧ Gen.C09.ungappedKeep = ">=" ∧
+    Gen.C09.extendLimit = ">" := by
   decide
 
 /-! ## Non-vacuity -/
